@@ -8,6 +8,7 @@ pub mod c07;
 pub mod c13;
 pub mod c15;
 pub mod c16;
+pub mod c18;
 
 #[derive(Clone, Copy, PartialEq, Eq, Debug)]
 pub enum Tier {
@@ -51,6 +52,7 @@ pub fn run(prop: &str, tier: Tier, seed: u64, out: &str) -> bool {
         "C13" => c13::run(tier, seed, out),
         "C15" => c15::run(tier, seed, out),
         "C16" => c16::run(tier, seed, out),
+        "C18" => c18::run(tier, seed, out),
         _ => return false,
     }
     true
